@@ -573,14 +573,75 @@ var rawQuoteHelpers = map[string]string{
 	"packets.extractEmbeddedIPv6": "skips the 4-byte ICMPv6 prefix after checking the IP version nibble only",
 }
 
+
+// quoteLocal: the term mentions a local of the gopacket IP layer types – the quoted header a parser function decodes into
+// (the outer header lives in the parser object, not in a local).
+func quoteLocal(t *core.Term) bool {
+	return t.Has(func(x *core.Term) bool {
+		if x.Op != "alloc" || x.Typ == nil {
+			return false
+		}
+		pt, ok := x.Typ.Underlying().(*types.Pointer)
+		if !ok {
+			return false
+		}
+		nt, ok := pt.Elem().(*types.Named)
+		return ok && nt.Obj().Pkg() != nil && strings.HasSuffix(nt.Obj().Pkg().Path(), "gopacket/layers") && (nt.Obj().Name() == "IPv4" || nt.Obj().Name() == "IPv6")
+	})
+}
+
+// rawQuoteParam: inside a split-off half of the parser the raw quote arrives as a byte-slice parameter.
+func rawQuoteParam(f *ssa.Function, arg *core.Term) bool {
+	if f.Name() == "GetICMPInfo" || arg.Op != "param" {
+		return false
+	}
+	if arg.Typ == nil {
+		return false
+	}
+	sl, ok := arg.Typ.Underlying().(*types.Slice)
+	if !ok {
+		return false
+	}
+	b, ok := sl.Elem().Underlying().(*types.Basic)
+	return ok && b.Kind() == types.Uint8
+}
+
+// icmpInfoBuilders: GetICMPInfo and the functions of its package in its call tree that hand back an ICMPInfo themselves (the
+// per-family halves a refactor may split it into).
+func icmpInfoBuilders(c *Ctx) []*ssa.Function {
+	f := c.P.Func("(*packets.FrameParser).GetICMPInfo")
+	if f == nil {
+		return nil
+	}
+	out := []*ssa.Function{f}
+	var names []string
+	set := map[string]*ssa.Function{}
+	for _, g := range ModReach(c.P, f) {
+		if g == f || core.FuncPkg(g) != core.FuncPkg(f) || len(g.Blocks) == 0 || g.Signature.Results().Len() == 0 {
+			continue
+		}
+		if nt, ok := g.Signature.Results().At(0).Type().(*types.Named); ok && nt.Obj().Name() == "ICMPInfo" {
+			set[core.FuncName(g)] = g
+			names = append(names, core.FuncName(g))
+		}
+	}
+	sort.Strings(names)
+	for _, n := range names {
+		out = append(out, set[n])
+	}
+	return out
+}
+
 // checkQuoteHelpers extends R02.2 into the parser: the success of GetICMPInfo may not depend on a module helper that
 // computes over the raw quoted header (where routers rewrite TTL, TOS and checksum), nor on a rewritten field of the decoded quote.
 func checkQuoteHelpers(c *Ctx) {
-	R := c.R
-	f := c.P.Func("(*packets.FrameParser).GetICMPInfo")
-	if f == nil {
-		return
+	for _, f := range icmpInfoBuilders(c) {
+		checkQuoteHelpersIn(c, f)
 	}
+}
+
+func checkQuoteHelpersIn(c *Ctx, f *ssa.Function) {
+	R := c.R
 	fn := core.FuncName(f)
 	rps, _ := core.ReturnPaths(c.P, f, 3000)
 	n := 0
@@ -595,7 +656,7 @@ func checkQuoteHelpers(c *Ctx) {
 				if x.Op == "call" && strings.HasPrefix(x.Name, "packets.") && rawQuoteHelpers[x.Name] == "" {
 					for ai, arg := range x.Args {
 						as := arg.String()
-						if (strings.Contains(as, ".Payload") && (strings.Contains(as, "ICMP4") || strings.Contains(as, "ICMP6"))) || (strings.Contains(as, "innerPkt") && strings.Contains(as, ".Contents")) {
+						if (strings.Contains(as, ".Payload") && (strings.Contains(as, "ICMP4") || strings.Contains(as, "ICMP6"))) || (quoteLocal(arg) && strings.Contains(as, ".Contents")) || rawQuoteParam(f, arg) {
 							// a helper that only hands the bytes to the layer decoder / keeps a copy is a moved piece of the parser;
 							// one that reads the bytes itself computes over what routers rewrite
 							inspected := true
@@ -613,7 +674,7 @@ func checkQuoteHelpers(c *Ctx) {
 						}
 					}
 				}
-				if x.Op == "field" && rewrittenFields[x.Name] && strings.Contains(x.Args[0].String(), "innerPkt") {
+				if x.Op == "field" && rewrittenFields[x.Name] && quoteLocal(x.Args[0]) {
 					bad = "the quoted header's " + x.Name
 				}
 				return bad == ""
@@ -635,21 +696,23 @@ func deniedICMPInfoFields(c *Ctx) map[string]string {
 		c.R.Fail("R02.2", "packets.GetICMPInfo#anchor", 0, "", "anchor (*packets.FrameParser).GetICMPInfo no longer resolves")
 		return out
 	}
-	rps, _ := core.ReturnPaths(c.P, f, 2000)
 	n := 0
-	for _, rp := range rps {
-		r0 := rp.Results[0]
-		if r0.Op != "struct" {
-			continue
-		}
-		n++
-		for _, kv := range r0.Args {
-			kv.Args[0].Walk(func(x *core.Term) bool {
-				if x.Op == "field" && rewrittenFields[x.Name] {
-					out[kv.Name] = x.Name
-				}
-				return true
-			})
+	for _, g := range icmpInfoBuilders(c) {
+		rps, _ := core.ReturnPaths(c.P, g, 2000)
+		for _, rp := range rps {
+			r0 := rp.Results[0]
+			if r0.Op != "struct" {
+				continue
+			}
+			n++
+			for _, kv := range r0.Args {
+				kv.Args[0].Walk(func(x *core.Term) bool {
+					if x.Op == "field" && rewrittenFields[x.Name] {
+						out[kv.Name] = x.Name
+					}
+					return true
+				})
+			}
 		}
 	}
 	c.R.Floor("R02.2:ICMPInfo-literals", n, 2)
